@@ -106,16 +106,26 @@ func (e *Encoder) checkEncodeRefMap(v reflect.Value) (int, bool) {
 		}
 	}
 
+	// every list, map and object takes the next ordinal, as it does in the decoder's ref list
+
+	// empty slices share their address (nil, or the runtime's zero base) without being the same list
+	if kind == reflect.Slice && reflect.Indirect(v).Len() == 0 {
+		e.refNum++
+		return 0, false
+	}
+
 	if elem, ok := e.refMap[addr]; ok {
 		// the array addr is equal to the first elem, which must ignore
 		if elem.kind == kind {
 			// fmt.Printf("-----> find ref: %d, %p, %v, %v\n", elem.index, addr, kind, v)
 			return elem.index, ok
 		}
+		e.refNum++
 		return 0, false
 	}
 
-	n := len(e.refMap)
+	n := e.refNum
+	e.refNum++
 	e.refMap[addr] = _refElem{kind, n}
 	// fmt.Printf("---> add ref: %d, %p, %v, %v\n", n, addr, kind, v)
 	return 0, false
